@@ -96,7 +96,15 @@ def steady_state_transport_solver(
     if cache is not None and footprint:
         # look up with the halo the result will be stored under (None -> default width)
         halo_key = max(domain) if halo is None else halo
-        cached = cache.get(z, profiles, domain, modes, meas_pt, halo_key, precision)
+        cache_extra = dict(
+            levels=np.asarray(levels, dtype=np.int64),
+            shape=np.shape(srf_flx),
+            analytic=bool(analytic),
+            srf_bg_conc=float(srf_bg_conc),
+        )
+        cached = cache.get(
+            z, profiles, domain, modes, meas_pt, halo_key, precision, **cache_extra
+        )
         if cached is not None:
             _verif.emit("return_cached")
             return cached
@@ -361,7 +369,9 @@ def steady_state_transport_solver(
 
     # Store to cache for footprint mode
     if cache is not None and footprint:
-        cache.put(z, profiles, domain, modes, meas_pt, halo, precision, *result)
+        cache.put(
+            z, profiles, domain, modes, meas_pt, halo, precision, *result, **cache_extra
+        )
 
     return result
 
